@@ -58,7 +58,11 @@ func c18Gen(class string, seed uint64, tier string) *vfScenario {
 			name = "/f0"
 		}
 		sc.Ops = []vfOp{{K: "init", A: 3}, {K: "open", P: name, A: 1, H: 0}, {K: "wait"}, {K: "read", H: 0, Off: 0, N: 20}}
-		for i, n := 0, 125+rng.IntN(20); i < n; i++ {
+		depth := 125 + rng.IntN(20)
+		if rng.IntN(3) == 0 {
+			depth = 250 + rng.IntN(90) // beyond 256 as well: nothing bounds the queue of replies waiting for an earlier one
+		}
+		for i, n := 0, depth; i < n; i++ {
 			sc.Ops = append(sc.Ops, vfOp{K: "stat", P: name})
 		}
 		sc.Cfg["holdread"] = int64(len(sc.Ops) - 4 - rng.IntN(12)) // how many of them are handled before the READ may go on
